@@ -73,3 +73,29 @@ pub fn calib_config(data_dir: &str) -> Value {
     }
     Value::Object(out)
 }
+
+
+/// Pads of a run segment ("r9277" / "r11084") that have a baseline but no gain or a gain but no baseline
+/// (`partial`), and pads that lack either (`missing`, a superset).
+pub fn uncalibrated_pads(data_dir: &str, seg: &str) -> (Vec<(usize, usize)>, Vec<(usize, usize)>) {
+    let p = |q: &str| format!("{data_dir}/calibration/pads/{q}");
+    let (pb, pg) = match seg {
+        "r9277" => (p("baseline/9277_complete_handwritten_cherry_picked_see_commit.ron"), p("gain/9277_complete.ron")),
+        _ => (p("baseline/11192_complete.ron"), p("gain/11186_complete.ron")),
+    };
+    let (pb, pg) = (pad_values(&pb), pad_values(&pg));
+    let mut partial = Vec::new();
+    let mut missing = Vec::new();
+    for i in 0..32 * 576usize {
+        let k = (i / 576, i % 576);
+        match (pb.contains_key(&k), pg.contains_key(&k)) {
+            (true, true) => {}
+            (false, false) => missing.push(k),
+            _ => {
+                partial.push(k);
+                missing.push(k);
+            }
+        }
+    }
+    (partial, missing)
+}
